@@ -3,8 +3,8 @@ import os
 import vlib
 
 KINDS = {1: "rParamI [-5,5]", 3: "rParam (char, [0,127], driven with -128..127)", 4: "rParamF [-3.5,20.25]", 5: "rToggle",
-         6: "rOption (integer argument)", 10: "rString(4)", 7: "rArrayI[4] [0,9]", 8: "rArrayF[3] [0,1]", 9: "rArrayT[3]"}
-# kinds 2 (no bounds) and 11 (option symbols) exist in the harness but are not run (cbmc error / unmodelled libc path in enum_key)
+         6: "rOption (integer argument)", 11: "rOption (symbol argument)", 10: "rString(4)", 7: "rArrayI[4] [0,9]", 8: "rArrayF[3] [0,1]", 9: "rArrayT[3]"}
+# kind 2 (no bounds) exists in the harness but is not run (cbmc error)
 
 
 def build(ctx):
@@ -36,4 +36,4 @@ def build(ctx):
                        "recording RtData subclass overrides the variadic reply/broadcast and encodes into 64-byte buffers with the real rtosc_vmessage",
                        "atoi/atof environment models for the metadata literals; floats are not NaN"]
     ctx.stubs = ["stubs/cxxrt.c", "stubs/atoi_model.c", "stubs/atof_model.c", "stubs/rtosc_shim.c (ABI shims)"]
-    ctx.outside = ["option symbols, rParamI without bounds, rToggle/rArrayT query", "rArrayOption, rParams", "array indices other than first/last (rArrayI, rArrayF) and the middle one (rArrayT)", "ranges other than those listed", "sequences of sets (single step from an arbitrary stored state is covered)"]
+    ctx.outside = ["option symbols that name no option or are symbolic strings, rParamI without bounds, rToggle/rArrayT query", "rArrayOption, rParams", "array indices other than first/last (rArrayI, rArrayF) and the middle one (rArrayT)", "ranges other than those listed", "sequences of sets (single step from an arbitrary stored state is covered)"]
